@@ -30,12 +30,16 @@ var (
 	locRepo = map[string]string{"a1": "repo1", "a2": "repo2", "b1": "repo1"}
 )
 
-const (
-	mtManifest = "application/vnd.oci.image.manifest.v1+json"
-	mtIndex    = "application/vnd.oci.image.index.v1+json"
-	mtConfig   = "application/vnd.oci.image.config.v1+json"
-	mtLayer    = "application/vnd.oci.image.layer.v1.tar+gzip"
-)
+// media types of the two content pools ("oci" and "docker")
+var mediaTypes = map[string][4]string{ // manifest, index, config, layer
+	"oci": {"application/vnd.oci.image.manifest.v1+json", "application/vnd.oci.image.index.v1+json",
+		"application/vnd.oci.image.config.v1+json", "application/vnd.oci.image.layer.v1.tar+gzip"},
+	"docker": {"application/vnd.docker.distribution.manifest.v2+json", "application/vnd.docker.distribution.manifest.list.v2+json",
+		"application/vnd.docker.container.image.v1+json", "application/vnd.docker.image.rootfs.diff.tar.gzip"},
+}
+
+// layouts and tar files are OCI layouts whatever the manifests inside are
+const mtIndex = "application/vnd.oci.image.index.v1+json"
 
 // content is the fixed pool of blobs and manifests the worlds are made of:
 // M1 = linux/amd64 image (config C1, layer L1), M2 = linux/arm64 image (C2, L2), IX = index of both.
@@ -51,7 +55,9 @@ func dg(b []byte) string {
 	return "sha256:" + hex.EncodeToString(h[:])
 }
 
-func buildContent() *content {
+func buildContent(kind string) *content {
+	mt := mediaTypes[kind]
+	mtManifest, mtIndex, mtConfig, mtLayer := mt[0], mt[1], mt[2], mt[3]
 	c := &content{body: map[string][]byte{}, dig: map[string]string{}, mt: map[string]string{}, kids: map[string][]string{}}
 	put := func(id string, b []byte) {
 		c.body[id] = b
@@ -88,11 +94,18 @@ func (c *content) closure(id string) []string {
 
 // buildWorld creates the registries and the layout directory for tags (loc -> tag -> manifest id)
 // and the tar files used by image.importTar.  A location without tags does not exist at all.
-func (c *content) buildWorld(world map[string]map[string]string, lay, files string) (*simreg.Net, error) {
+func (c *content) buildWorld(world map[string]map[string]string, feat, lay, files string) (*simreg.Net, error) {
 	n := simreg.NewNet()
 	hosts := map[string]*simreg.Host{}
+	f := simreg.DefaultFeatures()
+	if feat == "min" { // a registry without the optional conveniences
+		f.TagDelete = false
+		f.Mount = false
+		f.AnonBlobPOSTPut = false
+		f.PageSize = 1
+	}
 	for short, name := range hostName {
-		hosts[short] = n.AddHost(name, simreg.DefaultFeatures())
+		hosts[short] = n.AddHost(name, f)
 	}
 	for loc, tags := range world {
 		if loc == "lay" || len(tags) == 0 {
@@ -208,7 +221,8 @@ func (c *content) writeTar(w io.Writer, tags map[string]string) error {
 type worker struct {
 	id       int
 	opt      *options
-	cont     *content
+	cont     *content            // pool of the current scenario
+	conts    map[string]*content // "oci", "docker"
 	dir      string
 	addr     map[string]string // rega/regb -> 127.0.0.1:port
 	srv      []*http.Server
@@ -226,8 +240,8 @@ func (wk *worker) servedAt(seq int) time.Time {
 	return wk.times[seq]
 }
 
-func newWorker(id int, opt *options, cont *content) (*worker, error) {
-	wk := &worker{id: id, opt: opt, cont: cont, addr: map[string]string{}, dir: filepath.Join(opt.scratch, fmt.Sprintf("w%02d", id))}
+func newWorker(id int, opt *options, conts map[string]*content) (*worker, error) {
+	wk := &worker{id: id, opt: opt, cont: conts["oci"], conts: conts, addr: map[string]string{}, dir: filepath.Join(opt.scratch, fmt.Sprintf("w%02d", id))}
 	if err := os.MkdirAll(wk.dir, 0o755); err != nil {
 		return nil, err
 	}
@@ -276,6 +290,14 @@ func (wk *worker) handler(name string) http.Handler {
 		wk.inflight.Add(1)
 		defer wk.inflight.Add(-1)
 		defer wk.served.Add(1)
+		if strings.HasSuffix(r.URL.Path, "/manifests/slow") {
+			// the tag `slow`: never answered before the client gives up (its script's timeout), so
+			// that the call is cut off by the timeout however slow the machine is
+			select {
+			case <-time.After(20 * time.Second):
+			case <-r.Context().Done():
+			}
+		}
 		wk.mu.Lock()
 		n := wk.net
 		wk.mu.Unlock()
